@@ -1,5 +1,6 @@
 (* C11 Order integrity: immutable terms, shrinking remainders, no interference. *)
-From ATS Require Import Prelude Dec DecFacts Uuid Semver Types Contract Tactics Spec Inv InvAsk InstProofs AskProofs Frame Evolve Reach.
+From ATS Require Import Prelude Dec DecFacts Uuid Semver Types Contract Tactics Spec Inv InvAsk InstProofs AskProofs Frame Evolve Reach
+  BidFacts InvBid InvStep.
 
 (* frame: an accepted request leaves the version record alone, the configuration alone unless it is a
    configuration change, every ask it does not name and every bid it does not name exactly as they were
@@ -34,3 +35,18 @@ Proof.
   intros e m st0 r0 evs c k a He Hi Hc Hl. eapply inv_asks; eauto. eapply InvA_reachable; eauto.
 Qed.
 Print Assumptions C11_asks_consistent.
+
+(* consistency of every bid visible on the book after a clean history: a current-format slot stored under its id,
+   0 <= filled < size, spent <= quote, both below 2^96, and -- exactly, as integers, for the parsed price m/10^s --
+     quote * 10^s = m * size      and      unspent * 10^s = m * unfilled
+   (the remaining quote is the limit price times the remaining size), with the escrowed fee the pro-rata function of
+   the unspent quote *)
+Theorem C11_bids_consistent : forall e m st0 r0 evs c k s,
+  env_version_ok e -> instantiate e empty_state m = Ok (st0, r0) -> clean_run st0 evs ->
+  st_cfg (run st0 evs) = Some c -> lookup k (st_bids (run st0 evs)) = Some s ->
+  exists b, s = SlotV3 b /\ bid_ok c k b.
+Proof.
+  intros e m st0 r0 evs c k s He Hi Hcl Hc Hl.
+  pose proof (Inv_reachable e m st0 r0 evs He Hi Hcl) as [_ HB]. eapply inv_bids; eauto.
+Qed.
+Print Assumptions C11_bids_consistent.
